@@ -29,6 +29,7 @@ type sharedWorld struct {
 	freshV  reflect.Value // a value of that type
 	docs    [][]byte      // private-bytes documents that import the shared tables with various max_id
 	yielder bool
+	list3, list2 []ion.SharedSymbolTable
 	// deepDepth: nesting of the value of op 14, chosen so that the goroutines of a round together are
 	// more than 65536 levels deep
 	deepDepth int
@@ -73,8 +74,20 @@ func newWorld(round int, r *rand.Rand) *sharedWorld {
 		ion.NewSharedSymbolTable("T", 1, []string{"x", "y", "z", "alpha"}),
 		ion.NewSharedSymbolTable("Big", 1, big),
 	}
-	w.cat = ion.NewCatalog(w.ssts...)
-	w.lst = ion.NewLocalSymbolTable(w.ssts[:3], []string{"l1", "l2", "F0", "F1", "F2", "a", "b"})
+	// many versions of one table, registered oldest first; documents ask for a version that is not there
+	all := append([]ion.SharedSymbolTable{}, w.ssts...)
+	for v := 1; v <= 14; v++ {
+		all = append(all, ion.NewSharedSymbolTable("V", v, []string{fmt.Sprintf("v%d_a", v), fmt.Sprintf("v%d_b", v), fmt.Sprintf("v%d_c", v)}))
+	}
+	w.cat = ion.NewCatalog(all...)
+	for _, ver := range []int{99, 15, 100} {
+		w.docs = append(w.docs, []byte(fmt.Sprintf("$ion_symbol_table::{imports:[{name:\"V\",version:%d,max_id:3},{name:\"S\",version:7,max_id:4}]} $10 $11 $12 [$13, $16]", ver)))
+	}
+	w.lst = ion.NewLocalSymbolTable(append([]ion.SharedSymbolTable{}, w.ssts[:3]...), []string{"l1", "l2", "F0", "F1", "F2", "a", "b"})
+	// lists of tables that all goroutines pass to constructors; they have spare capacity, as a list
+	// grown with append has, and nobody has used them before the goroutines start
+	w.list3 = append(make([]ion.SharedSymbolTable, 0, 8), w.ssts[:3]...)
+	w.list2 = append(make([]ion.SharedSymbolTable, 0, 5), w.ssts[:2]...)
 	// a fresh struct type per round: first use happens concurrently
 	var fs []reflect.StructField
 	n := 20 + r.Intn(30)
@@ -138,7 +151,7 @@ func runOp(w *sharedWorld, op int, seed int64) (res opResult) {
 		return opResult(fmt.Sprintf("%d %v %s %v %d %d %s", id, ok, txt, ok2, a.MaxID(), len(a.Symbols()), s.String()[:20]))
 	case 4: // binary writer created with the shared tables
 		yw := &yieldWriter{y: w.yielder}
-		bw := ion.NewBinaryWriter(yw, w.ssts[:3]...)
+		bw := ion.NewBinaryWriter(yw, w.list3...)
 		bw.Annotation(ion.NewSymbolTokenFromString("alpha"))
 		bw.BeginStruct()
 		bw.FieldName(ion.NewSymbolTokenFromString("x"))
@@ -182,7 +195,7 @@ func runOp(w *sharedWorld, op int, seed int64) (res opResult) {
 		return opResult(out)
 	case 8: // text writer with shared tables + pretty
 		var buf bytes.Buffer
-		tw := ion.NewTextWriterOpts(&buf, ion.TextWriterPretty, w.ssts[:2]...)
+		tw := ion.NewTextWriterOpts(&buf, ion.TextWriterPretty, w.list2...)
 		tw.BeginList()
 		tw.WriteSymbol(ion.NewSymbolTokenFromString("gamma"))
 		tw.WriteTimestamp(ionx.ToTS(genTS(r), 0))
@@ -200,6 +213,9 @@ func runOp(w *sharedWorld, op int, seed int64) (res opResult) {
 		return opResult(fmt.Sprintf("%s|%v|%v|%+v", bs, err, uerr, back))
 	case 10: // catalog lookups and WriteTo of a shared table
 		s := w.cat.FindLatest("S")
+		if lv := w.cat.FindLatest("V"); lv == nil || lv.Version() != 14 {
+			return opResult(fmt.Sprintf("FindLatest(V) = %v", lv))
+		}
 		e := w.cat.FindExact("T", 1)
 		var buf bytes.Buffer
 		tw := ion.NewTextWriter(&buf)
@@ -343,6 +359,10 @@ func runC18(c *Ctx) {
 			if ngo >= 16 && round%4 != 1 {
 				plan[g][0].op, plan[g][1].op, plan[g][2].op = 14, 1, 2
 			}
+			if round%4 == 1 || round%4 == 3 {
+				// all goroutines make the first lookups in the round's fresh catalog at the same time
+				plan[g][0].op = []int{10, 2, 10, 7}[g%4]
+			}
 		}
 		w.deepDepth = 300
 		if ngo >= 16 {
@@ -371,6 +391,19 @@ func runC18(c *Ctx) {
 		close(start)
 		wg.Wait()
 		runtime.GOMAXPROCS(old)
+		// the lists of tables the goroutines passed to constructors belong to the caller
+		for li, lst := range [][]ion.SharedSymbolTable{w.list3, w.list2} {
+			for j, s := range lst {
+				if s != w.ssts[j] {
+					nm := "nil"
+					if s != nil {
+						nm = fmt.Sprintf("%s/%d", s.Name(), s.Version())
+					}
+					c.Violate("shared-argument", "table-list-modified", fmt.Sprintf("round %d: element %d of the table list %d passed to writer constructors is now %s (was %s/%d)", round, j, li, nm, w.ssts[j].Name(), w.ssts[j].Version()),
+						map[string]interface{}{"round": round, "list": li, "element": j}, nil)
+				}
+			}
+		}
 		// sequential reference on a fresh world built from the same seed
 		r2 := rand.New(rand.NewSource(c.Seed*18_000_041 + int64(round)))
 		w2 := newWorld(round, r2)
